@@ -167,7 +167,9 @@ def _spec(case):
         extra = h[2] if len(h) > 2 else None
         if how.startswith("names"):
             # the manual's spellings of a path in the same directory: './name', '~/name', either with a trailing '/'
-            blk = "Type=X\nPath=%s/%s%s\n" % ("~" if "~" in how else ".", n, "/" if how.endswith("/") else "")
+            # (one in three with a comment line between the two: a comment ahead of the Path= line is skipped)
+            blk = "Type=X\n%sPath=%s/%s%s\n" % ("# kept out on purpose\n" if (len(names_blocks) + len(n)) % 3 == 0 else "",
+                                               "~" if "~" in how else ".", n, "/" if how.endswith("/") else "")
             title = "Name=Titled %s\nPath=./%s\n" % (len(names_blocks), n)
             if extra == "before":
                 names_blocks.append(title)
